@@ -48,6 +48,9 @@ RENDER_OPTS = st.fixed_dictionaries({
 def cases(draw, tier="quick"):
     universe = draw(gen.key_universe([gen.PLAIN_KEYS, ["Root", "Item", "Tag", "List", "field", "DriverStandings", "MRData", "é", "naïve"]],
                                      min_size=3, max_size=7))
+    if draw(st.integers(0, 5)) == 0:
+        # a class name that is special to one framework only (pydantic's nested Config); rendered flat for pydantic/sqlmodel
+        universe = universe + [draw(st.sampled_from(["config", "configs", "Config"]))]
     ninputs = draw(st.integers(1, 3))
     inputs = [draw(st.one_of(gen.shared_child_samples(universe), gen.sample_lists(universe, max_samples=3, max_leaves=7)))
               for _ in range(ninputs)]
@@ -91,7 +94,7 @@ def valid(case):
             return False
         for s in case["inputs"]:
             for o in case["optsets"]:
-                if not c01.valid({"samples": s, "opts": dict(o, fw="base")}):
+                if not c01.valid({"samples": _without_config(s), "opts": dict(o, fw="base")}):
                     return False
         if case["ops"][0][0] != "generate":
             return False
@@ -118,6 +121,15 @@ def valid(case):
         return True
     except Exception:  # noqa: BLE001
         return False
+
+
+def _without_config(v):
+    """the key 'config' is admitted here although it is framework-reserved elsewhere (rendered flat for pydantic)"""
+    if isinstance(v, dict):
+        return {("cfg" if gen.fold(k) == "config" else "cfgs" if gen.fold(k) == "configs" else k): _without_config(x) for k, x in v.items()}
+    if isinstance(v, list):
+        return [_without_config(x) for x in v]
+    return v
 
 
 def failing_generator(base, k):
@@ -172,7 +184,9 @@ def check(case):
                 except Exception as e:  # noqa: BLE001
                     r.skip = "pipeline-error:%s@%s" % exc_sig(e)
                     return r
-                ent = dict(b=b, samples=samples, opts=o, rendered=[], failed=False, tree=pl.is_tree(b.reg))
+                from ..findings import all_keys
+                ent = dict(b=b, samples=samples, opts=o, rendered=[], failed=False, tree=pl.is_tree(b.reg),
+                           has_config=any(gen.fold(k) in ("config", "configs") for s in samples for k in all_keys(s)))
                 if len(regs) < 3:
                     regs.append(ent)
                 else:
@@ -213,6 +227,8 @@ def check(case):
                         r.label("op:failing-render-raised")
                     continue
                 nested = bool(ro["nested"] and ent["tree"])
+                if ro["fw"] in ("pydantic", "sqlmodel") and ent.get("has_config"):
+                    nested = False
                 ro["nested"] = nested
                 r.counters["compared-renders"] += 1
                 if ent["failed"] or after_cli or any(x != (ro["fw"], nested) for x in ent["rendered"]):
